@@ -180,6 +180,15 @@ structure NumTables where
 
 def lookup (t : List (Str × GQ)) (s : Str) : Option GQ := (t.find? fun e => e.1 = s).map (·.2)
 
+def intGQ (z : Int) : GQ := ⟨(z : Rat), 0⟩
+
+/-- Model of Python's `float(s)` restricted to decimal integer literals (`-`? digits): the exact integer value
+(Python's `float` is exact on them below 2^53; the harness compares the table it sends with this model) -/
+def floatIntModel (s : Str) : Option GQ :=
+  match s with
+  | '-' :: r => if r ≠ [] ∧ r.all isDigit = true then some (intGQ (-(parseNat r : Int))) else none
+  | r => if r ≠ [] ∧ r.all isDigit = true then some (intGQ (parseNat r)) else none
+
 /-- `if coef_string and coef_string[0] == '+': coef_string = coef_string[1:]` -/
 def stripPlus : Str → Str
   | '+' :: r => r
